@@ -151,7 +151,7 @@ EncodeClauses(e) ==
   (IF P("C18")
    THEN LET E == EncMsg(T, v) IN
         IF ~E.ok /\ E.why = "prefix-overflow" /\ e.res = "ok" THEN {<<"C18.message-wrap", "Prefix_Wrap">>}
-        ELSE IF E.ok /\ ~(e.res = "ok" /\ app = E.bytes) THEN {<<"C18.at-limit", "none">>}
+        ELSE IF E.ok /\ e.res # "ok" THEN {<<"C18.at-limit-refused", "none">>}     \* what fits must encode (that it round-trips is judged at the decode)
         ELSE {}
    ELSE {})
 
@@ -182,6 +182,11 @@ DecodeClauses(e) ==
         THEN (IF okshape /\ used = Len(hd.bytes) THEN {} ELSE {<<"C07.exact-consume", "none">>})
              \cup (IF Canonical(T, hd.v) /\ e.vpost # hd.vp THEN {<<"C07.stream-value", "none">>} ELSE {})
         ELSE IF Canonical(T, hd.v) THEN {<<"C07.stream-rejected", "none">>} ELSE {}
+   ELSE {})
+  \cup
+  (* C18: at and below the prefix limit the value round-trips (self-referential, as C01) *)
+  (IF P("C18") /\ hd.t = T /\ Canonical(T, hd.v)
+   THEN IF e.res = "ok" /\ e.vpost = hd.vp THEN {} ELSE {<<"C18.at-limit-roundtrip", "none">>}
    ELSE {})
   \cup
   (* C09: a message or an error *)
@@ -242,21 +247,25 @@ PrimClauses(e) ==
            app == IF e.big \/ ~IsPrefixOf(pre, e.post) THEN <<>> ELSE Drop(e.post, Len(pre))
        IN IF ~W.ok
           THEN (IF P("C18") /\ W.why = "prefix-overflow" /\ e.res # "err" THEN {<<"C18.primitive-wrap", "Prefix_Wrap">>} ELSE {})
-          ELSE IF e.big THEN (IF P("C18") /\ e.res # "ok" THEN {<<"C18.primitive-at-limit", "none">>} ELSE {})
+          ELSE IF P("C18") /\ e.res # "ok" THEN {<<"C18.primitive-at-limit-refused", "none">>}
+          ELSE IF e.big THEN {}
           ELSE IF e.res = "ok" /\ app = W.bytes THEN {}
           ELSE LET orderOnly == e.res = "ok" /\ OnlyByteOrderDiffers(app, W.bytes, W.mask)
                    kinds == IF orderOnly THEN ReversedKinds(app, W.bytes, W.mask) ELSE {}
                    odev == IF kinds = {KListElem} THEN "ListLE_ElementsBE" ELSE IF kinds = {KObjCount} THEN "ObjListLE_CountBE" ELSE "none"
                IN (IF P("C03") /\ orderOnly THEN {<<"C03.primitive-byte-order", odev>>} ELSE {})
                   \cup (IF P("C13") /\ fn \in FixedFns /\ ~orderOnly THEN {<<"C13.write", "none">>} ELSE {})
-                  \cup (IF P("C18") /\ ~orderOnly THEN {<<"C18.primitive-at-limit", "none">>} ELSE {})
+                  \cup (IF P("C18") /\ e.res = "ok" /\ "pw" \in DOMAIN a /\ Len(app) >= a.pw
+                            /\ ValCap(Ord(EndOf(a), Take(app, a.pw))) # ValCap(Ord(EndOf(a), Take(W.bytes, a.pw)))
+                        THEN {<<"C18.primitive-wrong-prefix", "none">>} ELSE {})
   ELSE LET R == PRead(fn, a, pre)
            used == Len(pre) - Len(e.post)
            agree == e.res = "ok" /\ e.ret = R.ret /\ IsSuffixOf(e.post, pre) /\ used = R.used
        IN (IF P("C13") /\ fn \in FixedFns /\ R.ok /\ ~agree
            THEN {<<"C13.read", IF PadIsHigh(a) THEN "Trim_RuneCutset" ELSE "none">>} ELSE {})
           \cup (IF P("C03") /\ fn \in IntOnlyFns /\ R.ok /\ ~agree THEN {<<"C03.primitive-read", "none">>} ELSE {})
-          \cup (IF P("C18") /\ R.ok /\ ~agree THEN {<<"C18.read-back", "none">>} ELSE {})
+          \cup (IF P("C18") /\ R.ok /\ e.tag = "read-back" /\ (e.res # "ok" \/ Len(e.ret) # Len(R.ret))
+                 THEN {<<"C18.read-back", "none">>} ELSE {})
           \cup (IF P("C11") /\ ~R.ok /\ R.why = "short" /\ e.res # "err" THEN {<<"C11.primitive-short-read", "none">>} ELSE {})
           \cup (IF P("C09") /\ e.res \notin {"ok", "err"}
               THEN {<<"C09.primitive-outcome", IF e.res = "abort" THEN "Reserve_BeforeCheck" ELSE "none">>} ELSE {})
